@@ -358,6 +358,15 @@ def t2_cases(ctx, real, per, tagseed, only=None, extreme=False):
                 cases.append((fn, [rnd(p[0]), rnd(p[1]), rnd(y)]))
                 if fn in KIND and r.random() < 0.5:
                     cases.append((fn + "_", [rnd(p[0]), rnd(p[1]), rnd(y)]))
+        if fn in ("div_real", "mul_real", "div_imag", "mul_imag") and real != 4:
+            # directed: a scalar so small (a subnormal number) that its reciprocal overflows, with operands scaled so that the exact
+            # quotient / product is an ordinary number - "real- and imaginary-scalar field arithmetic for all finite arguments"
+            for sc, zs in ((2.0 ** -1060, 2.0 ** -1044), (-(2.0 ** -1070), 2.0 ** -1050), (2.0 ** -1030, 2.0 ** -1020)):
+                for bx, by in ((3.0, -4.0), (1.0, 0.0), (0.0, -2.0), (-5.0, 12.0)):
+                    if fn.startswith("div"):
+                        cases.append((fn, [rnd(bx * zs), rnd(by * zs), rnd(sc)]))
+                    else:
+                        cases.append((fn, [rnd(bx / zs * 2.0 ** -1074), rnd(by / zs * 2.0 ** -1074), rnd(sc * 2.0 ** 1000)]))
         if fn in ("pow_real", "pow") and real != 4:
             # directed: bases of very small and very large modulus (|z|^2 under- or overflows, z itself is an ordinary finite
             # non-zero number) with exponents that keep the result in range - "all finite arguments away from poles"
